@@ -262,6 +262,13 @@ def c02(tier, seed, only):
     chk = Check("C02", tier, seed)
     runs = solvefam.plan(tier, seed, models=only)
     d = solvefam.Deferred(chk).add(["C02", "C01"], runs)
+    # four values per domain: the three-way split of mid_value / min_cost leaves a non-singleton part on each side
+    if not only or "obj_under_leq" in only:
+        d.add(["C02", "C01"], [("obj_under_leq", dict(domh="mid")), ("obj_under_leq", dict(domh="cost", table=1)), ("obj_under_leq", dict(domh="mid", cons="shaving"))], D=3)
+    # a static variable order given through decision_domains (reversed), with both consistency algorithms
+    for name, dec in (("alldiff3", [2, 1, 0]), ("lt", [1, 0]), ("alldiff_lt", [2, 0, 1])):
+        if not only or name in only:
+            d.add(["C02", "C01"], [(name, dict(decision=dec)), (name, dict(decision=dec, cons="shaving"))])
     # every order in which the constraints were posted
     import itertools
 
@@ -314,6 +321,9 @@ def c04(tier, seed, only):
     # (i)(iii)(iv) whole runs: pops per pass <= 4(P+1)(S+2), optimize rounds <= width+3, while-iterations <= 6000
     runs = solvefam.plan(tier, seed, models=only)
     d = solvefam.Deferred(chk).add(["C04"], runs)
+    for name, dec in (("alldiff3", [2, 1, 0]), ("lt", [1, 0]), ("alldiff_lt", [2, 0, 1]), ("max_eq", [1, 2, 0])):
+        if not only or name in only:
+            d.add(["C04"], [(name, dict(decision=dec)), (name, dict(decision=dec, cons="shaving")), (name, dict(decision=dec, cons="shaving", domh="max"))])
     for name in OPT_MODELS[:9] if tier == "quick" else OPT_MODELS:
         if only and name not in only:
             continue
@@ -543,6 +553,7 @@ def c10(tier, seed, only):
     chk.require("shave_bound", r.acc.counts.get("shaved:True", 0) > 0 and r.acc.counts.get("shaved:False", 0) > 0, "both verdicts must be reached")
     # C: a solver using shaving enumerates exactly the semantic set and finds the optimum (hence the same as with BC: C02/C03)
     runs = [(n, dict(cons="shaving", varh=v, domh=d)) for n, v, d in [("lt", "first", "min"), ("alldiff3", "smallest", "max"), ("queens_like", "first", "mid"), ("max_eq", "greatest", "split"), ("shared_twice", "first", "min"), ("circuit3", "first", "max"), ("count", "first", "mid"), ("geq_leq", "smallest", "split"), ("eq_diff_free", "first", "min"), ("eq_diff_free", "first", "max"), ("eq_diff_free", "smallest", "min")]]
+    runs += [("alldiff3", dict(cons="shaving", decision=[2, 1, 0])), ("alldiff_lt", dict(cons="shaving", decision=[2, 0, 1]))]
     if only:
         runs = [x for x in runs if x[0] in only]
     d_ = solvefam.Deferred(chk).add(["C01", "C02"], runs)
